@@ -56,8 +56,10 @@ impl PartialEq for Object {
         if self.len() != other.len() {
             return false;
         }
-        // because we allow duplicated keys in object, so we need to compare by `get`
+        // because we allow duplicated keys in object, so we need to compare by `get`;
+        // with repeated keys equal lengths do not imply equal key sets, so look from both sides
         self.iter().all(|(k, _)| other.get(&k) == self.get(&k))
+            && other.iter().all(|(k, _)| self.get(&k) == other.get(&k))
     }
 }
 
